@@ -16,8 +16,11 @@
     before and whatever the sends return: Abort to both workers, both joins, return; as steps of `stepMain` / `step`
     from `MainPc.loop` this ends in `returned` with Abort queued for every worker whose receiver still exists
     (the conclusion of `C15.abort_broadcast`);
-  * `C15_main_behaviours` — the operation sequences of the interpreted main thread and those the model's main thread
-    accepts are THE SAME prefix-closed set (both inclusions);
+  * `C15_main_code_within_model`, `C15_main_model_within_code` — the operation sequences of the interpreted main thread
+    and those the model's main thread accepts are THE SAME prefix-closed set (the two inclusions);
+  * `C15_main_in_every_schedule` — in every execution of the thread system (all schedules, all fault points) what main
+    has done so far is a prefix of what the interpreted `run` does; `C15_exits_after_death` puts C15's headline
+    (`exits_after_death_bound`) next to it;
   * `C15_poller_thread_ends`, `C15_writer_thread_ends`, `C15_writer_open_failure` — the two workers from their entry
     functions: they leave only by Abort (the function returns: the model's `exiting terminate`) or by the failure the
     model has (`exiting panic`), and until then go round their loops.
@@ -146,6 +149,140 @@ example : MainInputs demoInp [.writer, .main, .poller] "h1" "h2" 2
   send2 := rfl
   joinP := rfl
   joinW := rfl
+
+/-- for every scenario there IS an admissible input stream -/
+def scenarioInp (ks : List Thread) (nP nW : String) (k : Nat) (pre : Nat → RMsg) (stop : Recv)
+    (ok1 ok2 okP okW : Bool) : Nat → Value
+  | 0 => .tuple [mailboxValue, dispatchValue ks]
+  | 1 => .enumv "Some" [rxValue (chanValue .poller)]
+  | 2 => handleValue nP
+  | 3 => .enumv "Some" [rxValue (chanValue .writer)]
+  | 4 => handleValue nW
+  | 5 => .enumv "Some" [rxValue (chanValue .main)]
+  | j + 6 =>
+    if j < k then (Recv.ok (pre j)).value
+    else if j = k then stop.value
+    else if j = k + 1 then sendResult ok1 RMsg.abort.value
+    else if j = k + 2 then sendResult ok2 RMsg.abort.value
+    else if j = k + 3 then joinResult okP
+    else joinResult okW
+
+theorem scenarioInp_admissible (ks : List Thread) (hks : isOrder ks = true) (nP nW : String) (k : Nat)
+    (pre : Nat → RMsg) (hpre : ∀ i, i < k → (pre i).isNotice = false) (stop : Recv) (ok1 ok2 okP okW : Bool) :
+    MainInputs (scenarioInp ks nP nW k pre stop ok1 ok2 okP okW) ks nP nW k pre stop ok1 ok2 okP okW where
+  order := hks
+  web := rfl
+  mboxP := rfl
+  spawnP := rfl
+  mboxW := rfl
+  spawnW := rfl
+  mboxM := rfl
+  ignored := hpre
+  recvs := fun i hi => by
+    rw [Nat.add_comm 6 i]
+    simp only [scenarioInp, hi, if_true]
+  stops := by
+    rw [Nat.add_comm 6 k]
+    simp only [scenarioInp, Nat.lt_irrefl, if_false, if_true]
+  send1 := by
+    have e : 6 + k + 1 = (k + 1) + 6 := by omega
+    rw [e]
+    simp [scenarioInp]
+    omega
+  send2 := by
+    have e : 6 + k + 2 = (k + 2) + 6 := by omega
+    rw [e]
+    simp [scenarioInp]
+    omega
+  joinP := by
+    have e : 6 + k + 3 = (k + 3) + 6 := by omega
+    rw [e]
+    simp [scenarioInp]
+    omega
+  joinW := by
+    have e : 6 + k + 4 = (k + 4) + 6 := by omega
+    rw [e]
+    simp [scenarioInp]
+    omega
+
+/-- **C15 on the source, main: the code stays within the model.**  Every operation sequence the interpreted main
+    thread can have performed at any moment of a run that receives a worker's notice (every prefix of its operations,
+    read as model operations) is accepted by the model's main thread (`mainNext`, i.e. `stepMain` / `mainAbort`) -/
+theorem C15_main_code_within_model (inp : Nat → Value) (ks : List Thread) (nP nW : String) (k : Nat)
+    (pre : Nat → RMsg) (m : RMsg) (n : Threads.Msg) (ok1 ok2 okP okW : Bool)
+    (hi : MainInputs inp ks nP nW k pre (.ok m) ok1 ok2 okP okW) (hm : m.isNotice = true) (hn : m.abs = some n)
+    (drift : Nat) (phc : Option (Nat × Value)) (nowNs : Int) (F : Nat) :
+    ∃ evs : List MainEv,
+      runFuel (F + k + 200) (Code.ctxWith nowNs DictThreads.ext [] inp) "thread_manager::run" .unit
+        [.int .u32 drift, phcValue phc]
+        = .ok .unit .unit (startEvents ks phc drift nP nW ++ evs.map MainEv.value) ∧
+      ∀ ops, ops <+: evs.filterMap MainEv.abs → ∃ pc, mainNexts .loop ops = some pc := by
+  obtain ⟨evs, ig, f, hrun, habs, hig, hnn, _, _⟩ :=
+    C15_main_stops_everything inp ks nP nW k pre m n ok1 ok2 okP okW hi hm hn drift phc nowNs F
+  exact ⟨evs, hrun, fun ops hp => accepts_of_prefix ops ig n f hig hnn (habs ▸ hp)⟩
+
+/-- **C15 on the source, main: the model stays within the code.**  Every operation sequence the model's main thread
+    accepts from `MainPc.loop` (every control path of `stepMain` / `mainAbort`, complete or not) is a prefix of the
+    operations of the interpreted `thread_manager::run` on SOME admissible input stream: the model's main thread has
+    no behaviour the source does not have -/
+theorem C15_main_model_within_code (ops : List MainOp) (pc : MainPc) (h : mainNexts .loop ops = some pc)
+    (drift : Nat) (phc : Option (Nat × Value)) (nowNs : Int) :
+    ∃ (inp : Nat → Value) (ks : List Thread) (k : Nat) (pre : Nat → RMsg) (m : RMsg) (evs : List MainEv),
+      MainInputs inp ks "p" "w" k pre (.ok m) true true true true ∧ m.isNotice = true ∧
+      runFuel (k + 200) (Code.ctxWith nowNs DictThreads.ext [] inp) "thread_manager::run" .unit
+        [.int .u32 drift, phcValue phc]
+        = .ok .unit .unit (startEvents ks phc drift "p" "w" ++ evs.map MainEv.value) ∧
+      ops <+: evs.filterMap MainEv.abs := by
+  obtain ⟨ig, n, f, hig, hn, hp⟩ := prefix_of_accepts ops pc h
+  have hpre : ∀ i, i < ig.length → (reprMsg (ig.getD i .data)).isNotice = false := by
+    intro i hi
+    rw [reprMsg_isNotice]
+    exact hig _ (getD_mem ig .data i hi)
+  have hadm := scenarioInp_admissible (orderOf f) (orderOf_isOrder f) "p" "w" ig.length
+    (fun j => reprMsg (ig.getD j .data)) hpre (.ok (reprMsg n)) true true true true
+  have hmn : (reprMsg n).isNotice = true := by rw [reprMsg_isNotice]; exact hn
+  have hrun := main_eq (orderOf f) hadm.order drift phc "p" "w" ig.length 0 _ hadm.ignored (.ok (reprMsg n)) hmn
+    true true true true nowNs _ hadm.web hadm.mboxP hadm.spawnP hadm.mboxW hadm.spawnW hadm.mboxM hadm.recvs hadm.stops
+    hadm.send1 hadm.send2 hadm.joinP hadm.joinW
+  have habs := mainEvs_abs ig.length (fun j => reprMsg (ig.getD j .data)) (reprMsg n) n (reprMsg_abs n) (orderOf f)
+    (orderOf_isOrder f) true true true true "p" "w"
+  rw [Nat.zero_add] at hrun
+  refine ⟨_, _, _, _, _, _, hadm, hmn, hrun, ?_⟩
+  rw [habs, ignoredOf_repr, orderOf_first]
+  exact hp
+
+/-- **C15 on the source, main in the thread system.**  In EVERY execution of the thread system of C15 (`Threads.run init
+    acts`: every schedule, every fault point of either worker), the operations the main thread has performed so far
+    (`mainTrace`: its receives with the messages received, its Abort sends, its joins) are a prefix of the operations of
+    the interpreted `thread_manager::run` on some admissible input stream, and its program counter is where that
+    operation sequence leads -/
+theorem C15_main_in_every_schedule (acts : List Action) (s : State) (h : Threads.run Threads.init acts = some s)
+    (drift : Nat) (phc : Option (Nat × Value)) (nowNs : Int) :
+    ∃ (inp : Nat → Value) (ks : List Thread) (k : Nat) (pre : Nat → RMsg) (m : RMsg) (evs : List MainEv),
+      MainInputs inp ks "p" "w" k pre (.ok m) true true true true ∧ m.isNotice = true ∧
+      runFuel (k + 200) (Code.ctxWith nowNs DictThreads.ext [] inp) "thread_manager::run" .unit
+        [.int .u32 drift, phcValue phc]
+        = .ok .unit .unit (startEvents ks phc drift "p" "w" ++ evs.map MainEv.value) ∧
+      mainTrace Threads.init acts <+: evs.filterMap MainEv.abs ∧
+      mainNexts .loop (mainTrace Threads.init acts) = some s.m := by
+  have ht := run_mainTrace Threads.init s acts h
+  obtain ⟨inp, ks, k, pre, m, evs, h1, h2, h3, h4⟩ := C15_main_model_within_code _ _ ht drift phc nowNs
+  exact ⟨inp, ks, k, pre, m, evs, h1, h2, h3, h4, ht⟩
+
+/-- **C15's headline next to it**: in every execution in which a worker has ended (died at any point, or left its loop),
+    every continuation of at least `24 + |main queue| + |writer queue|` rounds ends with `run` returned and both workers
+    finished (`C15.exits_after_death_bound`, a theorem about `Threads.step`), and what main did up to the death is what
+    the interpreted `thread_manager::run` does (`C15_main_in_every_schedule`).  The transport of the first conjunct to a
+    system made of the four interpreted functions is NOT proved: see the header. -/
+theorem C15_exits_after_death (acts : List Action) (s s' : State) (n : Nat)
+    (h : Threads.run Threads.init acts = some s) (he : Ended s) (hr : Rounds n s s')
+    (hn : 24 + s.qM.length + s.qW.length ≤ n) :
+    (s'.m = .returned ∧ s'.p = .done ∧ s'.w = .done) ∧
+    ∃ pc, mainNexts .loop (mainTrace Threads.init acts) = some pc ∧ pc = s.m :=
+  ⟨C15.exits_after_death_bound (run_reachable .init h) he hr hn, _, run_mainTrace Threads.init s acts h, rfl⟩
+
+/-- non-vacuity: the schedule of `C15.toPollerDies2` (the poller panics in its second trip) followed by main's receive -/
+example : mainTrace Threads.init (C15.toPollerDies2 ++ [.main]) = [.recv (.notice .poller .panic)] := by decide
 
 /-! ### the two workers -/
 
